@@ -190,6 +190,7 @@ class MiniEval:
         self.permissive = permissive
         self.resolver = resolver
         self.depth = 0
+        self.expr_compare = False  # comparisons involving recorded expression terms build a term (Expr.__eq__ & co)
         self.ctor_fields: Optional[Callable[[str], Any]] = None  # class name -> (init params, {attr: param})
         self.isinstance_hook: Optional[Callable[[Any, str], Optional[bool]]] = None
         self.truth_hook: Optional[Callable[[Any], Optional[bool]]] = None
@@ -285,6 +286,8 @@ class MiniEval:
             for op, r in zip(e.ops, e.comparators):
                 right = self.ev(r)
                 ok = self._cmp(op, left, right, e)
+                if isinstance(ok, Rec):
+                    return ok
                 if not ok:
                     return False
                 left = right
@@ -348,6 +351,9 @@ class MiniEval:
         raise AnalysisError(f"{self.where}: expression form not supported by the evaluator: `{u(e)}`")
 
     def _cmp(self, op, left, right, e) -> bool:
+        if self.expr_compare and (isinstance(left, Rec) or isinstance(right, Rec)) and not isinstance(op, (ast.Is, ast.IsNot, ast.In, ast.NotIn)):
+            # PyTeal overloads comparison operators on expressions: the result is an expression term
+            return Rec("call", Rec("name", "$cmp:" + type(op).__name__), [left, right], {})
         if isinstance(op, ast.Eq):
             return left == right
         if isinstance(op, ast.NotEq):
@@ -554,7 +560,7 @@ class MiniEval:
         if self.depth > 12:
             raise AnalysisError(f"{self.where}: helper inlining depth exceeded at {getattr(fnode, 'name', '?')}")
         sub = MiniEval(self.oracle, self.where, self.permissive, self.resolver)
-        sub.isinstance_hook, sub.truth_hook, sub.ctor_fields = self.isinstance_hook, self.truth_hook, self.ctor_fields
+        sub.isinstance_hook, sub.truth_hook, sub.ctor_fields, sub.expr_compare = self.isinstance_hook, self.truth_hook, self.ctor_fields, self.expr_compare
         sub.depth = self.depth + 1
         sub.consulted = self.consulted
         sub.env = dict(closure_env)
